@@ -63,6 +63,10 @@ type locState struct {
 }
 
 type raceState struct {
+	// pins keeps every tracked object reachable until the end of the execution: a freed object's
+	// address could otherwise be reused by an unrelated object of another thread within the same
+	// execution, and two accesses to DIFFERENT objects would be reported as a race on one location
+	pins  []interface{}
 	locs  map[uintptr]*locState
 	names map[uintptr]string
 	races []RaceInfo
@@ -73,13 +77,14 @@ func newRaceState() *raceState {
 	return &raceState{locs: map[uintptr]*locState{}, names: map[uintptr]string{}, seen: map[string]bool{}}
 }
 
-func (x *Exec) access(addr uintptr, site string, write bool) {
+func (x *Exec) access(addr uintptr, site string, write bool, pin interface{}) {
 	r := x.race
 	t := x.cur
 	st := r.locs[addr]
 	if st == nil {
 		st = &locState{}
 		r.locs[addr] = st
+		r.pins = append(r.pins, pin)
 	}
 	report := func(kind string, prev access) {
 		key := kind + "|" + prev.site + "|" + site
@@ -122,7 +127,7 @@ func MR[M ~map[K]V, K comparable, V any](m M, loc string) M {
 	if x == nil || x.race == nil || x.aborting || m == nil {
 		return m
 	}
-	x.access(reflect.ValueOf(m).Pointer(), loc, false)
+	x.access(reflect.ValueOf(m).Pointer(), loc, false, m)
 	return m
 }
 
@@ -132,7 +137,7 @@ func MW[M ~map[K]V, K comparable, V any](m M, loc string) M {
 	if x == nil || x.race == nil || x.aborting || m == nil {
 		return m
 	}
-	x.access(reflect.ValueOf(m).Pointer(), loc, true)
+	x.access(reflect.ValueOf(m).Pointer(), loc, true, m)
 	return m
 }
 
@@ -142,7 +147,7 @@ func Rd[T any](p *T, loc string) *T {
 	if x == nil || x.race == nil || x.aborting {
 		return p
 	}
-	x.access(reflect.ValueOf(p).Pointer(), loc, false)
+	x.access(reflect.ValueOf(p).Pointer(), loc, false, p)
 	return p
 }
 
@@ -152,6 +157,6 @@ func Wr[T any](p *T, loc string) *T {
 	if x == nil || x.race == nil || x.aborting {
 		return p
 	}
-	x.access(reflect.ValueOf(p).Pointer(), loc, true)
+	x.access(reflect.ValueOf(p).Pointer(), loc, true, p)
 	return p
 }
